@@ -236,6 +236,8 @@ class WritableVersion(dns.zone.WritableVersion):
             node.flags |= NodeFlags.ORIGIN
         elif self.delegations.is_glue(name):
             node.flags |= NodeFlags.GLUE
+        elif name in self.delegations:
+            node.flags |= NodeFlags.DELEGATION
         return (node, name)
 
     def update_glue_flag(self, name: dns.name.Name, is_glue: bool) -> None:
